@@ -338,7 +338,13 @@ def run_unit(name, tier='quick', variant=None, keep=True):
                     label = f'witness.{fn}'
         R.failures.append(Failure(label, k2, item, msg, d.get('rendered', ''), pln))
     # sanity: verus said errors but we mapped none
-    if tool_errors:
+    if tool_errors and {k for k, _, _ in tool_errors} == {'rlimit'} and R.failures:
+        # a definite failure was reported before the solver ran out of resources looking for further ones
+        # (--multiple-errors): the failures stand, the rlimit is recorded
+        R.status = 'fail'
+        R.reason = f'rlimit after {len(R.failures)} reported failure(s)'
+        R.tool_errors = tool_errors
+    elif tool_errors:
         kinds = {k for k, _, _ in tool_errors}
         R.status = 'undecided'
         R.reason = ('rlimit: ' if kinds == {'rlimit'} else 'tool-error: ') + '; '.join(m for _, m, _ in tool_errors[:3])
